@@ -22,6 +22,7 @@ type obsStage struct {
 	CS          string `json:"client_session"` // ClientSessionFromContext: id or <nil>
 	GS          string `json:"get_session"`    // GetSessionFromContext: id or <nil>
 	ForeignMark bool   `json:"foreign_mark,omitempty"`
+	Srv         string `json:"server,omitempty"` // handler stages of scenario "shared": the server whose handler ran
 }
 
 type caseState struct {
@@ -29,9 +30,10 @@ type caseState struct {
 	mu     sync.Mutex
 	traces map[string][]obsStage
 
-	calls        atomic.Int64 // every invocation of an instrumented middleware (any request)
-	foreign      atomic.Int64 // invocations for requests that are not ours (initialize)
-	notifInChain atomic.Int64 // invocations whose request looks like a notification
+	calls        atomic.Int64   // every invocation of an instrumented middleware (any request)
+	per          []atomic.Int64 // the same per middleware number
+	foreign      atomic.Int64   // invocations for requests that are not ours (initialize)
+	notifInChain atomic.Int64   // invocations whose request looks like a notification
 	inflight     atomic.Int64
 	maxInflight  atomic.Int64
 
@@ -45,7 +47,7 @@ type caseState struct {
 }
 
 func newCaseState(n int) *caseState {
-	return &caseState{n: n, traces: map[string][]obsStage{}, gateAt: -1, notifs: map[string]int{}}
+	return &caseState{n: n, traces: map[string][]obsStage{}, gateAt: -1, notifs: map[string]int{}, per: make([]atomic.Int64, n)}
 }
 
 type markKey int
@@ -157,6 +159,9 @@ func (cs *caseState) mw(i int, b beh) mcp.Middleware {
 	return func(next mcp.HandlerFunc) mcp.HandlerFunc {
 		return func(ctx context.Context, req *mcp.JSONRPCRequest) (mcp.JSONRPCMessage, error) {
 			cs.calls.Add(1)
+			if i < len(cs.per) {
+				cs.per[i].Add(1)
+			}
 			if req.ID == nil || strings.HasPrefix(req.Method, "notifications/") {
 				cs.notifInChain.Add(1)
 			}
@@ -298,14 +303,17 @@ func (cs *caseState) opts(kind kit.Kind, chain []beh, form string) kit.Opts {
 var notifMethods = []string{"notifications/initialized", "notifications/verif", "notifications/roots/list_changed", "tools/call", "x-vendor/do", "logging/setLevel"}
 
 // register installs the tool, the prompt and the notification handlers of a case.
-func (cs *caseState) register(in *kit.Instance) {
+func (cs *caseState) register(in *kit.Instance) { cs.registerAs(in, "") }
+
+// registerAs: the same; the handler stages carry the name of the server they were registered on.
+func (cs *caseState) registerAs(in *kit.Instance, srv string) {
 	in.RegisterTool(mcp.NewTool("c15echo", mcp.WithDescription("echo nonce and tag"), mcp.WithString("nonce", mcp.Required()), mcp.WithString("tag")),
 		func(ctx context.Context, req *mcp.CallToolRequest) (*mcp.CallToolResult, error) {
 			nonce, _ := req.Params.Arguments["nonce"].(string)
 			tag, _ := req.Params.Arguments["tag"].(string)
 			marks, fm := cs.visibleMarks(ctx, nonce)
 			csid, gsid := sessOf(ctx)
-			cs.record(nonce, obsStage{mStage: mStage{Stage: "handler", Meth: "tools/call", Marks: marks, Tag: tag}, CS: csid, GS: gsid, ForeignMark: fm})
+			cs.record(nonce, obsStage{mStage: mStage{Stage: "handler", Meth: "tools/call", Marks: marks, Tag: tag}, CS: csid, GS: gsid, ForeignMark: fm, Srv: srv})
 			return mcp.NewTextResult(nonce + "|" + tag), nil
 		})
 	in.RegisterPrompt(&mcp.Prompt{Name: "c15prompt", Arguments: []mcp.PromptArgument{{Name: "nonce", Required: true}, {Name: "tag"}}},
@@ -313,7 +321,7 @@ func (cs *caseState) register(in *kit.Instance) {
 			nonce, tag := req.Params.Arguments["nonce"], req.Params.Arguments["tag"]
 			marks, fm := cs.visibleMarks(ctx, nonce)
 			csid, gsid := sessOf(ctx)
-			cs.record(nonce, obsStage{mStage: mStage{Stage: "handler", Meth: "prompts/get", Marks: marks, Tag: tag}, CS: csid, GS: gsid, ForeignMark: fm})
+			cs.record(nonce, obsStage{mStage: mStage{Stage: "handler", Meth: "prompts/get", Marks: marks, Tag: tag}, CS: csid, GS: gsid, ForeignMark: fm, Srv: srv})
 			return &mcp.GetPromptResult{Messages: []mcp.PromptMessage{{Role: mcp.RoleUser, Content: mcp.NewTextContent(nonce + "|" + tag)}}}, nil
 		})
 	in.RegisterResource(&mcp.Resource{URI: "res://c15", Name: "c15res", MimeType: "text/plain"},
